@@ -466,7 +466,48 @@ func c20RunStore(c c20Flow, res *WRes) {
 	res.sample(map[string]any{"flow": c.Flow, "jwt": c.JWT, "storage_calls": len(w.Store.Log)})
 }
 
+// ---- storage error text must not reach the client unless debug exposure is on
+
+type c20FaultCase struct {
+	Flow   string `json:"flow"`
+	Call   int    `json:"call"`
+	Legacy bool   `json:"legacy_format"`
+	Name   string `json:"name,omitempty"`
+}
+
+func c20RunFault(c c20FaultCase, res *WRes) {
+	w := NewWorld(Profile{LegacyErrors: c.Legacy})
+	p := c18Setup(w, c.Flow)
+	idx := -1
+	hit := ""
+	w.Store.Before = func(call *Call) error {
+		idx++
+		if idx == c.Call {
+			hit = call.Name
+			return c18Err("generic")
+		}
+		return nil
+	}
+	o := p.target()
+	w.Store.Before = nil
+	res.Trans++
+	if hit == "" || o == nil {
+		return
+	}
+	res.distinct(fmt.Sprintf("%s|%d|%v", c.Flow, c.Call, c.Legacy))
+	text := o.Body + " " + o.Location + " " + fmt.Sprint(o.FormPost)
+	if dec, err := url.QueryUnescape(o.Location); err == nil {
+		text += " " + dec
+	}
+	if strings.Contains(text, "STORAGEMARKER") || strings.Contains(text, "10.42.7.13") {
+		cc := c
+		cc.Name = hit
+		res.violate(Violation{Property: "C20", Fingerprint: fmt.Sprintf("C20/storage-error-text-exposed/flow=%s/%s", c.Flow, hit), What: fmt.Sprintf("flow %s: the text of a storage error raised by %s appears in the response although debug exposure is disabled", c.Flow, hit), Engine: "c20fault", Case: cc, Expected: "no internal detail", Observed: strings.TrimSpace(o.Body + " " + o.Location)})
+	}
+}
+
 type c20Job struct {
+	Fault  bool
 	Writer string
 	Debug  bool
 	Legacy bool
@@ -481,6 +522,19 @@ func init() {
 			return nil, err
 		}
 		res := &WRes{}
+		if j.Fault {
+			for _, f := range c18Flows {
+				n := len(c18Trace(f, false))
+				for i := 0; i < n; i++ {
+					for _, leg := range []bool{false, true} {
+						c20RunFault(c20FaultCase{Flow: f, Call: i, Legacy: leg}, res)
+						res.Evals++
+					}
+				}
+			}
+			res.sample(map[string]any{"part": "storage error text", "flows": c18Flows})
+			return res, nil
+		}
 		if j.Store {
 			for _, f := range c20Flows {
 				for _, jwt := range []bool{false, true} {
@@ -520,6 +574,15 @@ func init() {
 		c20RunErr(c, res)
 		return res.Viol, nil
 	}
+	replayFns["c20fault"] = func(raw json.RawMessage) ([]Violation, error) {
+		var c c20FaultCase
+		if err := json.Unmarshal(raw, &c); err != nil {
+			return nil, err
+		}
+		res := &WRes{}
+		c20RunFault(c, res)
+		return res.Viol, nil
+	}
 	replayFns["c20store"] = func(raw json.RawMessage) ([]Violation, error) {
 		var c c20Flow
 		if err := json.Unmarshal(raw, &c); err != nil {
@@ -536,6 +599,7 @@ func init() {
 		}
 		var jobs []any
 		jobs = append(jobs, c20Job{Store: true})
+		jobs = append(jobs, c20Job{Fault: true})
 		for _, wr := range c20Writers {
 			for _, dbg := range []bool{false, true} {
 				for _, leg := range []bool{false, true} {
@@ -547,7 +611,7 @@ func init() {
 		for n := range c20Errors {
 			names = append(names, n)
 		}
-		r.Bounds = map[string]any{"errors": len(names), "fragments": len(c20Frags), "fragment_depth": depth, "writers": c20Writers, "formats": []string{"new", "legacy"}, "debug_exposure": []bool{false, true}, "storage_flows": c20Flows, "storage_strategies": []string{"hmac", "jwt"}}
+		r.Bounds = map[string]any{"errors": len(names), "fragments": len(c20Frags), "fragment_depth": depth, "writers": c20Writers, "formats": []string{"new", "legacy"}, "debug_exposure": []bool{false, true}, "storage_flows": c20Flows, "storage_strategies": []string{"hmac", "jwt"}, "storage_error_text": "a generic storage error carrying a recognisable text is injected at every storage call of every C18 flow, both error formats, debug exposure off"}
 		r.Rule = "errors: every exported RFC error (and a plain Go error) x hint/debug text built from <= depth nasty fragments x format x debug exposure x writer, the bytes written are re-parsed (JSON / URL / HTML tokenizer); storage: every storage call of every flow is scanned (keys and stored request forms) for secrets that are usable at the moment of the call"
 		r.Assumptions = []string{"the user password necessarily reaches the Authenticate storage call", "a just-consumed credential passed as a key is not a usable secret", "the revocation and introspection writers choose their own error; for them only self-consistency of code and status is checked"}
 		res := r.Pool.Do("c20", jobs, r.Deadline)
